@@ -16,3 +16,4 @@ INVARIANT DocSliding
 INVARIANT DocFading
 INVARIANT MonotoneInLatest
 INVARIANT Emit
+INVARIANT EmitQF2
